@@ -77,7 +77,11 @@ type cohortOp struct {
 	f     func(a []D) string
 }
 
-func cohortOps() []cohortOp {
+func cohortOps() []cohortOp { return cohortOpsWith(sigOfD, sigOfText) }
+
+// cohortOpsWith builds the operation table with the given result signatures
+// (value-level for C19, bit-level for the C20 concurrency tables).
+func cohortOpsWith(sigOfD func(D) string, sigOfText func(string) string) []cohortOp {
 	var ops []cohortOp
 	add := func(name string, arity int, f func(a []D) string) { ops = append(ops, cohortOp{name, arity, f}) }
 	for m := 0; m < 6; m++ {
